@@ -913,10 +913,15 @@ pub fn c13(ctx: &Ctx) -> Report {
                 ends.push(rig.bus.borrow().miso_bytes);
             }
             let total = *ends.last().unwrap();
-            let npoints = if ctx.thorough { 120 } else { 9 };
-            for j in 0..npoints {
-                let pos = if j < total.min(npoints / 2) && ctx.thorough { j } else { rng.below(total as u64) as usize };
-                let mode = (j % 3) as u8;
+            let npoints = if ctx.thorough && k < 3 { 40 } else { 9 };
+            // always: the line stuck low / high / noisy from the very first byte (empty socket, unpowered level shifter)
+            // and a card dying low inside the first command's answer
+            let fixed: Vec<(usize, u8)> = if crc { vec![(0, 1), (0, 0), (0, 2), (3, 1), (7, 1)] } else { vec![(0, 1)] };
+            for j in 0..npoints + fixed.len() {
+                let (pos, mode) = if j < fixed.len() { fixed[j] } else {
+                    let j = j - fixed.len();
+                    (if j < total.min(npoints / 2) && ctx.thorough { j } else { rng.below(total as u64) as usize }, (j % 3) as u8)
+                };
                 let mut rig = Rig::new(&ctx.model_path, cfg.kind, cfg.csd.clone(), cfg.timing, crc, cfg.retries.min(2), rng.next());
                 rig.bus.borrow_mut().faults.dead_from = Some((pos, mode));
                 let mut initialised = false;
@@ -929,6 +934,11 @@ pub fn c13(ctx: &Ctx) -> Report {
                     rep.oracle_checks += 2;
                     if rig.bus.borrow().capped || bytes > bound {
                         rep.violation("impl-vs-spec", "sd-traffic-bound", &format!("{} exchanged {bytes} bytes against a dead card (bound {bound})", c.show()), J::obj(vec![("case", J::s(tag.clone())), ("dead_from", J::i(pos as i128)), ("mode", J::i(mode as i128))]));
+                    }
+                    if rig.bus.borrow().capped {
+                        // the driver would never have returned: nothing sensible follows on this rig (and the transcript is
+                        // millions of bytes long - not worth replaying on the model)
+                        break;
                     }
                     if res == "panic" {
                         rep.violation("impl-vs-spec", "sd-panic", &format!("`{}` panicked when the card went {} at byte {pos}", c.show(), ["silent", "busy", "garbage"][mode as usize]), J::obj(vec![("case", J::s(tag.clone())), ("dead_from", J::i(pos as i128)), ("mode", J::i(mode as i128)), ("kind", J::s(cfg.kind.token()))]));
